@@ -31,6 +31,7 @@ type Config struct {
 	PFlowTypes    int // stage ins typed after what other stages produce
 	PTwin         int // twin calls (same callee and bindings) giving same-shaped sources
 	PTopMap       int // the top-level call is a map call over a literal collection
+	PyStagePct    int // used by the harness when choosing SrcFor: share of stages written in Python
 	PProject      int
 	// Allow map calls of pipelines which themselves contain map calls
 	// where one of the dimensions is only known at run time.
